@@ -43,6 +43,7 @@ def extract_compact(value: bytes) -> CompactEncryption:
     obj = CompactEncryption(protected)
     obj.base64_segments.update({
         "aad": header_segment,
+        "protected": header_segment,
         "iv": iv_segment,
         "ciphertext": ciphertext_segment,
         "tag": tag_segment,
